@@ -7,6 +7,7 @@ package qframe
 
 import (
 	"bytes"
+	"encoding/json"
 	"errors"
 	"io"
 	"math"
@@ -19,15 +20,19 @@ import (
 )
 
 type c14rd struct {
-	b   []byte
-	pos int
-	ok  bool
+	b     []byte
+	pos   int
+	ok    bool
+	short bool // the text ended before the construct was complete
 }
 
 func (r *c14rd) expect(c byte) {
 	if r.pos < len(r.b) && r.b[r.pos] == c {
 		r.pos++
 		return
+	}
+	if r.pos >= len(r.b) {
+		r.short = true
 	}
 	r.ok = false
 }
@@ -52,7 +57,7 @@ func (r *c14rd) str() string {
 	r.expect('"')
 	for r.ok {
 		if r.pos >= len(r.b) {
-			r.ok = false
+			r.ok, r.short = false, true
 			break
 		}
 		c := r.b[r.pos]
@@ -62,7 +67,7 @@ func (r *c14rd) str() string {
 		}
 		if c == '\\' {
 			if r.pos+1 >= len(r.b) {
-				r.ok = false
+				r.ok, r.short = false, true
 				break
 			}
 			e := r.b[r.pos+1]
@@ -82,7 +87,7 @@ func (r *c14rd) str() string {
 				out = append(out, '\t')
 			case 'u':
 				if r.pos+4 > len(r.b) {
-					r.ok = false
+					r.ok, r.short = false, true
 					break
 				}
 				v := 0
@@ -125,6 +130,9 @@ func (r *c14rd) token() string {
 	start := r.pos
 	for r.pos < len(r.b) && r.b[r.pos] != ',' && r.b[r.pos] != '}' {
 		r.pos++
+	}
+	if r.pos >= len(r.b) {
+		r.short = true
 	}
 	return string(r.b[start:r.pos])
 }
@@ -350,7 +358,7 @@ func c14decode(rd io.Reader) (interface{}, error) {
 // VX_C14_readjson: ReadJSON applied to what ToJSON wrote reproduces the frame
 // (bool, string, enum, NaN-free float columns; int columns as equal-valued floats).
 func VX_C14_readjson() {
-	vx.ModelJSONDecoder(c14decode)
+	vx.ModelJSONStream(c14newStream)
 	n := vx.ParamInt("n")
 	P := n + 1
 	var names []string
@@ -422,4 +430,178 @@ func splitComma(s string) []string {
 		cur += string(s[k])
 	}
 	return append(out, cur)
+}
+
+// c14stream is the reference stand-in for *encoding/json.Decoder (vx.ModelJSONStream): the entry
+// points Token, More and Decode over a buffered reader, as the package documents them. Like the
+// real decoder it reads on demand, More reports false on any read error (and drops it), Token
+// and Decode report the reader's error (io.ErrUnexpectedEOF when the text just ends too early).
+type c14stream struct {
+	r   io.Reader
+	b   []byte
+	pos int
+	err error
+}
+
+func c14newStream(r io.Reader) vx.JSONStream { return &c14stream{r: r} }
+
+func (d *c14stream) fill() {
+	if d.err != nil {
+		return
+	}
+	buf := make([]byte, 512)
+	n, err := d.r.Read(buf)
+	d.b = append(d.b, buf[:n]...)
+	d.err = err
+}
+
+// peek skips white space and returns the next byte, reading as needed.
+func (d *c14stream) peek() (byte, error) {
+	for {
+		for d.pos < len(d.b) {
+			c := d.b[d.pos]
+			if c != ' ' && c != '\t' && c != '\r' && c != '\n' {
+				return c, nil
+			}
+			d.pos++
+		}
+		if d.err != nil {
+			return 0, d.err
+		}
+		d.fill()
+	}
+}
+
+func (d *c14stream) More() bool {
+	c, err := d.peek()
+	return err == nil && c != ']' && c != '}'
+}
+
+func (d *c14stream) Token() (interface{}, error) {
+	for {
+		c, err := d.peek()
+		if err != nil {
+			return nil, err
+		}
+		switch c {
+		case '[', ']', '{', '}':
+			d.pos++
+			return json.Delim(c), nil
+		case ',', ':':
+			d.pos++ // separators are consumed silently
+			continue
+		}
+		return nil, errors.New("c14stream: only delimiter tokens are modelled")
+	}
+}
+
+// record parses one {...} object starting at r.pos.
+func c14record(r *c14rd) (map[string]interface{}, error) {
+	r.expect('{')
+	m := map[string]interface{}{}
+	firstKey := true
+	for r.ok && !r.peek('}') {
+		if !firstKey {
+			r.expect(',')
+		}
+		firstKey = false
+		key := r.str()
+		r.expect(':')
+		if r.peek('"') {
+			m[key] = r.str()
+			continue
+		}
+		tok := r.token()
+		if r.short {
+			break
+		}
+		switch tok {
+		case "null":
+			m[key] = nil
+		case "true":
+			m[key] = true
+		case "false":
+			m[key] = false
+		default:
+			v, err := strconv.ParseFloat(tok, 64)
+			if err != nil {
+				return nil, errors.New("invalid number in JSON text")
+			}
+			m[key] = v
+		}
+	}
+	r.expect('}')
+	return m, nil
+}
+
+// Decode reads the next value: an array of records or one record, into *JSONRecords or *map.
+func (d *c14stream) Decode(v interface{}) error {
+	for {
+		c, err := d.peek()
+		if err != nil {
+			return err
+		}
+		if c == ',' { // between array elements, after Token has opened the array
+			d.pos++
+			continue
+		}
+		break
+	}
+	for {
+		r := &c14rd{b: d.b, pos: d.pos, ok: true}
+		var rec map[string]interface{}
+		recs := qfio.JSONRecords{}
+		var perr error
+		if r.peek('[') {
+			r.expect('[')
+			first := true
+			for r.ok && !r.peek(']') {
+				if !first {
+					r.expect(',')
+				}
+				first = false
+				var m map[string]interface{}
+				m, perr = c14record(r)
+				if perr != nil {
+					return perr
+				}
+				recs = append(recs, m)
+			}
+			r.expect(']')
+		} else {
+			rec, perr = c14record(r)
+			if perr != nil {
+				return perr
+			}
+		}
+		if r.ok {
+			d.pos = r.pos
+			switch dst := v.(type) {
+			case *qfio.JSONRecords:
+				if rec != nil {
+					return errors.New("json: cannot unmarshal object into a slice")
+				}
+				*dst = recs
+			case *map[string]interface{}:
+				if rec == nil {
+					return errors.New("json: cannot unmarshal array into a map")
+				}
+				*dst = rec
+			default:
+				return errors.New("c14stream: destination type not modelled")
+			}
+			return nil
+		}
+		if !r.short {
+			return errors.New("invalid JSON text")
+		}
+		// the value is not complete yet: read more
+		if d.err != nil {
+			if d.err == io.EOF {
+				return io.ErrUnexpectedEOF
+			}
+			return d.err
+		}
+		d.fill()
+	}
 }
